@@ -301,7 +301,8 @@ def banner(rng):
     else:
         software = rng.choice(['libssh_0.9.6', 'Cisco-1.25', 'x', 'ROSSSH', 'mod_sftp/0.9.9', 'WeOnlyDo-2.1.3'])
         software_lib = version.SshSoftwareVersionUnparsed(software)
-    comment = rng.choice([None, None, 'Ubuntu-4ubuntu0.3', 'comment with spaces', 'FreeBSD-20200214'])
+    comment = rng.choice([None, None, 'Ubuntu-4ubuntu0.3', 'comment with spaces', 'FreeBSD-20200214', '', 'two  blanks', ' leading blank',
+                          'trailing blank ', 'tab\tinside', '  ', ''.join(chr(rng.randrange(0x20, 0x7f)) for _ in range(rng.randrange(1, 40)))])
     lib = sub.SshProtocolMessage(version.SshProtocolVersion(major, minor), software_lib, comment)
     return Pair('banner', lib, ref.banner(major, minor, software, comment))
 
